@@ -153,10 +153,23 @@ var helperErrorExits = map[string][]string{
 	},
 }
 
+// c14HelperErrorExits: the same for record parsers outside the twelve C03 formats whose error exit is
+// what keeps a record without a name or a version out of the inventory.
+var c14HelperErrorExits = map[string][]string{
+	"extractor/filesystem/language/python/wheelegg.parse": {
+		"builtin.len(net/textproto.MIMEHeader.Get(net/textproto.Reader.ReadMIMEHeader(net/textproto.NewReader(bufio.NewReader(param0)))#0,\"Name\":string)) == 0",
+		"builtin.len(net/textproto.MIMEHeader.Get(net/textproto.Reader.ReadMIMEHeader(net/textproto.NewReader(bufio.NewReader(param0)))#0,\"version\":string)) == 0",
+	},
+}
+
 func c03HelperErrorExits(p *Prog, r *Report, rule string) {
+	frozenHelperErrorExits(p, r, rule, helperErrorExits)
+}
+
+func frozenHelperErrorExits(p *Prog, r *Report, rule string, table map[string][]string) {
 	defer func(d int, a bool) { renderDepth, renderAllocs = d, a }(renderDepth, renderAllocs)
 	renderDepth, renderAllocs = 8, true
-	for key, want := range helperErrorExits {
+	for key, want := range table {
 		i := strings.LastIndex(key, ".")
 		fn := p.Func(key[:i], key[i+1:])
 		if fn == nil {
